@@ -414,6 +414,23 @@ pub struct Iteration {
     pub target: T<f64>,
     /// run backward twice before the update (must give the sum, by C10)
     pub double_backward: bool,
+    /// a forward call on another batch whose result is abandoned, made right before this iteration's own forward
+    pub abandoned_forward: Option<T<f64>>,
+    /// before this iteration the model object is dropped, the layers are edited through Layer::parameters() and a new
+    /// Model is built over the same layers
+    pub rebuild: Option<Rebuild>,
+}
+#[derive(Clone, Debug)]
+pub struct Rebuild {
+    /// per parameter: Some(true) stop_tracking(), Some(false) start_tracking(), None leave
+    pub freeze: Vec<Option<bool>>,
+    /// parameters replaced by a new tracked array of the same dimensions
+    pub edits: Vec<(usize, T<f64>)>,
+}
+impl Iteration {
+    pub fn plain(input: T<f64>, target: T<f64>, double_backward: bool) -> Iteration {
+        Iteration { input, target, double_backward, abandoned_forward: None, rebuild: None }
+    }
 }
 
 pub struct TrainRun {
@@ -442,10 +459,38 @@ pub fn train_spied(spec: &NetSpec, params: &[T<f64>], iterations: &[Iteration], 
         let mut losses = vec![];
         let mut outputs = vec![];
         let mut output_tracked = vec![];
-        {
+        let mut i = 0;
+        while i < iterations.len() {
+            if let Some(rb) = &iterations[i].rebuild {
+                let mut k = 0;
+                for s in spies.iter_mut() {
+                    for p in s.parameters() {
+                        match rb.freeze.get(k).copied().flatten() {
+                            Some(true) => {
+                                p.stop_tracking();
+                            }
+                            Some(false) => {
+                                p.start_tracking();
+                            }
+                            None => {}
+                        }
+                        if let Some((_, t)) = rb.edits.iter().find(|(j, _)| *j == k) {
+                            *p = arr_t(t).tracked();
+                        }
+                        k += 1;
+                    }
+                }
+            }
             let refs: Vec<&mut dyn Layer> = spies.iter_mut().map(|s| s as &mut dyn Layer).collect();
             let mut model = Model::new(refs, &opt, &costf);
-            for it in iterations {
+            loop {
+                let it = &iterations[i];
+                if let Some(x) = &it.abandoned_forward {
+                    // the spies' record of the abandoned call is not part of the iteration
+                    let n0 = events.borrow().len();
+                    let _ = model.forward(arr_t(x));
+                    events.borrow_mut().truncate(n0);
+                }
                 let input = arr_t(&it.input);
                 let target = arr_t(&it.target);
                 if keep_handles {
@@ -464,6 +509,10 @@ pub fn train_spied(spec: &NetSpec, params: &[T<f64>], iterations: &[Iteration], 
                 }
                 losses.push(loss as f64);
                 model.update();
+                i += 1;
+                if i >= iterations.len() || iterations[i].rebuild.is_some() {
+                    break;
+                }
             }
         }
         (losses, outputs, output_tracked)
